@@ -150,6 +150,13 @@ impl LeastSquaresProblem<f64, Dyn, U6> for PointsToMesh<'_> {
         let mut jac = Matrix::<f64, Dyn, U6, Self::JacobianStorage>::zeros(self.points.len());
         for (i, (p, c)) in self.moved.iter().zip(self.closest.iter()).enumerate() {
             let values = match self.mode {
+                // A point lying on the surface has no direction towards its closest point: use the surface
+                // normal (the one-sided derivative of the distance).  A zero row would remove the point from
+                // the problem and can leave a whole column of the jacobian zero, in which case the solver
+                // stops at the starting guess and reports success
+                DistMode::ToPoint if (p - c.point).norm_squared() < 1e-16 => {
+                    point_plane_jacobian(p, c, &self.params)
+                }
                 DistMode::ToPoint => point_point_jacobian(p, &c.point, &self.params),
                 DistMode::ToPlane => point_plane_jacobian(p, c, &self.params),
             };
